@@ -63,6 +63,25 @@ def run(ck):
             w = l.split()
             if l.startswith("propfail ") and w[2] == "fifo":
                 ck.fail_input("service_fifo", l, per.get(w[1], [])[:300] + [l])
+    # client stage: a message callback is always for the packet just received / the stored message just released
+    if ck.build_harness("client"):
+        cpath, _ = ck.harness("c15", out_name="client_c15.txt")
+        clines = ck.model("client", "c15", cpath)
+        cscn = {}
+        for l in open(cpath).read().splitlines():
+            w = l.split(" ", 2)
+            if len(w) >= 2 and w[0] in ("scn", "ev", "mark", "end"):
+                cscn.setdefault(w[1], []).append(l)
+        cdiffs = []
+        for l in clines:
+            w = l.split()
+            if l.startswith("propfail ") and len(w) >= 3 and w[2] == "client_in_order":
+                ck.fail_input("client_in_order", l, cscn.get(w[1], []) + [l])
+            elif l.startswith("diff "):
+                cdiffs.append(l)
+        if cdiffs and not ck.violations:
+            ck.fail_unwitnessed("correspondence Client/Client.v ~ client.Client: %d observed traces rejected" % len(cdiffs),
+                                sum((cscn.get(l.split()[1], []) + [l] for l in cdiffs[:3]), []))
     if ck.tier == "thorough":
         ck.coqchk(["GM.Props.C15"])
     ck.evaluations = sys_eval + ck.stats.get("model_cases", 0)
@@ -73,4 +92,5 @@ def run(ck):
                "QoS, windows 1..10, one subscriber cut with 2..window messages unacknowledged and resumed: per (publisher, QoS, delivery QoS) "
                "sequence numbers increase, retransmitted (dup) ids keep their original order, no QoS 2 message offered twice as new; plus clauses "
                "c15_in_order, c15_release_intact, c15_resend_order, c15_dequeue_order on broker-connection traces; plus the fifo clause of the "
-               "service monitor on the service scenarios (client.Service command queue)")
+               "service monitor on the service scenarios (client.Service command queue); plus the client_in_order scanner on client traces "
+               "(bursts of PUBLISH/PUBREL handed over at once, callback errors)")
